@@ -33,6 +33,7 @@ func checkC08(e *Env) {
 	var emitted [ref.NLang][2048]string
 	var emittedOK [ref.NLang][2048]bool
 	var acceptedOK [ref.NLang][2048]int
+	var verdicts, wrongVerdicts [ref.NLang]int // validation verdicts used to observe the reverse map
 	kinds := newCounter()
 	smp := newSamples(6)
 	dist := newDistinct()
@@ -119,6 +120,12 @@ func checkC08(e *Env) {
 			}
 		case "accept", "neighbour":
 			accepted := r.Err == nil
+			mu.Lock()
+			verdicts[x.lang]++
+			if accepted != (x.want == ref.OK) {
+				wrongVerdicts[x.lang]++
+			}
+			mu.Unlock()
 			if accepted != (x.want == ref.OK) {
 				what := fmt.Sprintf("%s list: a valid sentence containing word %d (%s) is rejected with %q: validation does not map the word back to index %d", ref.Names[x.lang], x.idx, preview(golden), errText(r.Err), x.idx)
 				if x.kind == "neighbour" {
@@ -191,8 +198,17 @@ func checkC08(e *Env) {
 	})
 
 	// the concurrent flavour of this monitor (C12 is the full treatment)
-	concCalls := e.concurrentSmoke(drv, "C08", e.smokePool("C08", "chk"), e.pick(4, 12), e.pick(200, 1000))
+	concCalls := e.concurrentSmoke(drv, "C08", e.smokePool("C08", "chk"), e.pick(4, 12), e.pick(200, 1000), e.smokeValidAccepted())
 
+	// The reverse map (word -> index) is observed through validation verdicts. If validation is
+	// wrong for a large share of ALL sentences of a language, the cause is not a few list entries
+	// (a swapped pair affects well under 2 % of the sentences) but validation itself — C02/C03's
+	// business — and the reverse map cannot be observed: inconclusive, not a violation.
+	for lang := 0; lang < ref.NLang; lang++ {
+		if verdicts[lang] > 0 && wrongVerdicts[lang]*4 > verdicts[lang] {
+			fatalInconclusive("C08: validation gives the wrong verdict for %d of %d crafted %s sentences: the word->index map cannot be observed through it (see C02/C03)", wrongVerdicts[lang], verdicts[lang], ref.Names[lang])
+		}
+	}
 	// well-formedness of what the API emitted
 	py := e.Py()
 	complete := 0
